@@ -96,6 +96,26 @@ def run_case(ctx, idx, ops, subsets):
     return res
 
 
+def listwidth_cases(ctx):
+    """`list operations` read at 80 columns (what a script gets: no COLUMNS, stdout a pipe) against the same at 400 columns"""
+    r = ctx.rng
+    out = []
+    docs = [[{"opid": "get" + "VeryLongOperationIdentifierSegment" * 3, "method": "GET", "path": "/a"}, {"opid": "short", "method": "GET", "path": "/b"}],
+            [{"opid": "listThingsWithAModeratelyLongName", "method": "GET", "path": "/some/rather/long/path/with/{many}/segments/{and}/parameters/to/fill/the/row"}, {"opid": "other", "method": "POST", "path": "/o"}],
+            [{"opid": "listPets", "method": "GET", "path": "/pets"}, {"opid": "createPets", "method": "POST", "path": "/pets"}, {"opid": "showPetById", "method": "GET", "path": "/pets/{petId}"}]]
+    for i, ops in enumerate(docs):
+        d = ctx.scratch("lw%d" % i)
+        spec_path = os.path.join(d, "spec.json")
+        json.dump(spec_of([{"operationId": o["opid"], "method": o["method"], "path": o["path"]} for o in ops]), open(spec_path, "w"))
+        ids = {}
+        for tag, env in (("ids_wide", {"COLUMNS": "400"}), ("ids_narrow", {"COLUMNS": None})):
+            rc, o, e, to = ctx.run_cli(["list", "operations", "-i", spec_path], env=env)
+            # first column of every table row (also of the continuation rows of a wrapped cell)
+            ids[tag] = [m.group(1) for m in (re.match(r"^ (\S+)", l) for l in o.splitlines()) if m and m.group(1) != "OPERATION" and not set(m.group(1)) <= set("─")]
+        out.append({"op": "registry.listwidth", "in": {"doc": i, "ops": [o["opid"] for o in ops]}, "impl": ids})
+    return out
+
+
 def run(ctx):
     ctx.translate(["naming"])
     proofs_ok, driver_ok = ctx.build_lean(["Oas3Model.Props.C08"])
@@ -123,6 +143,7 @@ def run(ctx):
                      [{"method": "GET", "path": "/a", "operationId": "x"}, {"method": "POST", "path": "/a", "operationId": "x"}],
                      [{"method": "GET", "path": "/a", "operationId": "only"}, {"method": "GET", "path": "/b", "operationId": "bare", "bare": True}],
                      [{"method": "GET", "path": "/a", "operationId": "alpha"}, {"method": "PUT", "path": "/b", "operationId": "beta"}, {"method": "GET", "path": "/c", "operationId": None}]]
+            ctx.judge_direct(listwidth_cases(ctx), tie="E-cli")
             sets = fixed + [rand_ops(r) for _ in range(12 if ctx.quick else 80)]
             for idx, ops in enumerate(sets):
                 def subsets(ids, quick=ctx.quick):
